@@ -195,6 +195,10 @@ pub enum FaultKind {
     Silence,
     /// The identity reply carries another device id (no effect elsewhere).
     WrongSerial,
+    /// The frame is emitted normally, but every client write from then on fails (EPIPE).
+    EpipeAfter,
+    /// `n` bytes of the frame are delivered, then nothing more (stall inside a packet).
+    StallMid(u16),
 }
 
 #[derive(Clone, Debug, PartialEq, Eq, Serialize, Deserialize)]
@@ -254,6 +258,9 @@ pub struct ReqLog {
     pub op: i32,
     /// Receipt number this request led the terminal to issue.
     pub issued_receipt: Option<u16>,
+    /// Receipt number the terminal put into a status information of this exchange
+    /// (whether or not the exchange then completed).
+    pub offered_receipt: Option<u16>,
     /// Status information the terminal sent in this exchange (for the summary check).
     pub status_sent: Option<rc::Status>,
     /// Did the exchange end with a completion?
@@ -305,6 +312,7 @@ pub struct PtShared {
     /// Identity replies delivered per connection: (conn, serial, log seq).
     pub identity_sent: Vec<(u16, String, usize)>,
     pub duplicate_reservations: u64,
+    pub last_card: Option<CardOutcome>,
 }
 
 impl PtShared {
@@ -330,6 +338,7 @@ impl PtShared {
             drng: Rng::new(delay.2),
             identity_sent: vec![],
             duplicate_reservations: 0,
+            last_card: None,
         }
     }
 
@@ -517,6 +526,19 @@ impl PtConn {
                         self.silent = true;
                         return false;
                     }
+                    FaultKind::StallMid(n) => {
+                        fire(&mut pt, kind);
+                        let n = (n as usize) % e.frame.len().max(1);
+                        io.release_after(delay, &e.frame[..n]);
+                        self.silent = true;
+                        return false;
+                    }
+                    FaultKind::EpipeAfter => {
+                        fire(&mut pt, kind);
+                        io.release_after(delay, &e.frame);
+                        io.fail_writes();
+                        return false;
+                    }
                     FaultKind::WrongSerial => {
                         fire(&mut pt, kind);
                         let mut f = e.frame.clone();
@@ -683,16 +705,23 @@ impl PtConn {
                 end(&mut out, o.end, Effect::None);
             }
             (0x06, 0xc0) => {
-                let o = pt.q.card.pop_front().unwrap_or(CardOutcome {
-                    pre: 0,
-                    kind: CardKind::Card {
-                        uid: Some("04a1b2c3d4e5f6".into()),
-                        apps: None,
-                        nested_apps: None,
-                        no_tlv: false,
-                    },
-                    delay_ms: 0,
-                });
+                // a retried read-card command of the same call sees the same card
+                let o = match pt.q.card.pop_front() {
+                    Some(o) => {
+                        pt.last_card = Some(o.clone());
+                        o
+                    }
+                    None => pt.last_card.clone().unwrap_or(CardOutcome {
+                        pre: 0,
+                        kind: CardKind::Card {
+                            uid: Some("04a1b2c3d4e5f6".into()),
+                            apps: None,
+                            nested_apps: None,
+                            no_tlv: false,
+                        },
+                        delay_ms: 0,
+                    }),
+                };
                 pre(&mut out, o.pre);
                 let h = |s: &Option<String>| s.as_ref().map(|x| crate::exchange::hexser::from_hex(x).unwrap_or_default());
                 match &o.kind {
@@ -758,6 +787,7 @@ impl PtConn {
                 if with {
                     let r = pt.issue_receipt();
                     receipt = Some(r);
+                    pt.requests[req].offered_receipt = Some(r);
                     let s = pt.status(amount, currency, Some(r));
                     out.push(plain(rc::status_info(&s)));
                     pt.requests[req].status_sent = Some(s);
@@ -938,6 +968,7 @@ impl Terminal for PtConn {
                     pkt: None,
                     op,
                     issued_receipt: None,
+                    offered_receipt: None,
                     status_sent: None,
                     completed: None,
                     dangling_reported: None,
@@ -995,6 +1026,7 @@ impl Terminal for PtConn {
                     pkt: pkt.clone().ok(),
                     op,
                     issued_receipt: None,
+                    offered_receipt: None,
                     status_sent: None,
                     completed: None,
                     dangling_reported: None,
